@@ -45,6 +45,8 @@ SKELETON = [
     ("g1", "generic :: g1 => b1, b2", 2),
     ("f1", "final :: f1", 2),
     (None, "end type t1", 1),
+    (None, "type, extends(t1) :: t1x", 1),
+    (None, "end type t1x", 1),
     ("gi", "interface gi", 1),
     ("gimp", "module procedure s1", 2),
     (None, "end interface gi", 1),
